@@ -348,6 +348,19 @@ fn region_digests(data: &[Block], len64: usize, lo: usize, hi: usize) -> String 
     format!("[{},{},{}]", d(0, lo), d(lo, hi), d(hi, n))
 }
 
+/// Runs `f` on a copy of `input` that starts at an address congruent to `want` modulo 64 (`[u8; 64]` has alignment 1: a
+/// caller-owned working space may sit anywhere), and returns the copy afterwards.
+fn on_misaligned(input: &[Block], want: usize, f: impl FnOnce(&mut [Block])) -> Vec<Block> {
+    let n = input.len();
+    let mut raw = vec![0u8; n * 64 + 128];
+    let base = raw.as_ptr() as usize;
+    let off = (want + 64 - base % 64) % 64;
+    let (chunks, _) = raw[off..off + n * 64].as_chunks_mut::<64>();
+    chunks.copy_from_slice(input);
+    f(chunks);
+    chunks.to_vec()
+}
+
 fn xcase_family(t: &mut Trace, seed: u64, thorough: bool, engines: &[&'static str]) {
     let mut rng = util::rng(seed, 0xc03);
     let mut cases: Vec<XfCase> = Vec::new();
@@ -414,9 +427,13 @@ fn xcase_family(t: &mut Trace, seed: u64, thorough: bool, engines: &[&'static st
             .raw("din", &dig(&input));
         let mut outs = Obj::new();
         let mut fails: Vec<String> = Vec::new();
-        for e in engines {
+        for (ei, e) in engines.iter().enumerate() {
             let mut data = input.clone();
-            let res = std::panic::catch_unwind(std::panic::AssertUnwindSafe(|| with_engine!(*e, E, { run_xf::<E>(c, &mut data) })));
+            // every other run on a working space at an odd address
+            let want = if (ei + c.size + c.trunc) % 2 == 0 { 0 } else { [1usize, 8, 16, 17, 32, 33, 63][(ei + c.delta + c.trunc) % 7] };
+            let res = std::panic::catch_unwind(std::panic::AssertUnwindSafe(|| {
+                data = on_misaligned(&input, want, |d| with_engine!(*e, E, { run_xf::<E>(c, d) }));
+            }));
             // the part of [pos, pos+size) the contract leaves open is not compared: blank it in the big form
             if big {
                 for q in hi * c.len64..(c.pos + c.size) * c.len64 {
@@ -453,13 +470,16 @@ fn xcase_family(t: &mut Trace, seed: u64, thorough: bool, engines: &[&'static st
         let mut o = Obj::new().str("ev", "xcase").str("prim", "mul").us("nsh", nblocks + 2).us("pos", 1).us("size", nblocks).us("trunc", nblocks).int("lm", i64::from(lm)).us("len64", 1).bool("big", false).raw("din", &digests(&input, 1));
         let mut outs = Obj::new();
         let mut fails: Vec<String> = Vec::new();
-        for e in engines {
+        for (ei, e) in engines.iter().enumerate() {
             let mut data = input.clone();
+            let want = if (ei + i) % 2 == 0 { 0 } else { [1usize, 8, 16, 17, 32, 33, 63][(ei + i) % 7] };
             let res = std::panic::catch_unwind(std::panic::AssertUnwindSafe(|| {
-                with_engine!(*e, E, {
-                    let eng = E::mk();
-                    eng.mul(&mut data[1..=nblocks], lm);
-                })
+                data = on_misaligned(&input, want, |d| {
+                    with_engine!(*e, E, {
+                        let eng = E::mk();
+                        eng.mul(&mut d[1..=nblocks], lm);
+                    })
+                });
             }));
             outs = match res {
                 Ok(()) => outs.raw(e, &digests(&data, 1)),
